@@ -231,8 +231,9 @@ class Check(core.PropertyCheck):
             w = {(f, fld, 2) for f in ("curl", "httpie") for fld in self.FIELDS}
             w |= {("raw", fld, 2) for fld in ("method", "path", "hname", "hval", "body")}
             return w
-        w = {(f, fld, 3) for f in ("curl", "httpie") for fld in self.FIELDS}
-        w |= {("raw", fld, 3) for fld in ("method", "path", "hname", "hval", "body")}
+        w = {(f, fld, 3 if (f == "curl" and fld in ("body", "hval", "path")) else 2)
+             for f in ("curl", "httpie") for fld in self.FIELDS}
+        w |= {("raw", fld, 3 if fld == "body" else 2) for fld in ("method", "path", "hname", "hval", "body")}
         return w
 
     def model_constants(self, tier, work=None):
